@@ -68,7 +68,7 @@ PROPS["C20"] = {
 }
 
 
-def _c20_race_scenarios(tier, seed, work, sh):
+def _c20_race_scenarios(tier, seed, work, sh, pattern="Scenario"):
     """Forced-schedule scenarios of harness/race_test.go under the race detector
     (runtime support of C20, not the proof).  A reported data race whose two
     go-smtp functions are a pair of LocksetInst.known_races is a known finding;
@@ -84,7 +84,7 @@ def _c20_race_scenarios(tier, seed, work, sh):
         for f, a, b in re.findall(r'\("([^"]+)",\s*"([^"]+)",\s*"([^"]+)"\)', m.group(1)):
             known.add(frozenset((a, b)))
     count = 1 if tier == "quick" else 15
-    rc, out = sh("go test -race -tags verif -run Scenario -count=%d -v . 2>&1" % count,
+    rc, out = sh("go test -race -tags verif -run '%s' -count=%d -v . 2>&1" % (pattern, count),
                  cwd=verif + "/harness", timeout=3000)
     res = {"cases": 0, "kf": {}, "violations": [], "samples": []}
     if "--- PASS" not in out and "--- FAIL" not in out:
@@ -133,6 +133,17 @@ def _c20_race_scenarios(tier, seed, work, sh):
     return res
 
 PROPS["C20"]["extra"] = [("race_scenarios", _c20_race_scenarios)]
+
+def _scenarios_of(pid):
+    """Scenarios of harness/race_test.go named TestScenario<pid>_...: several connections on ONE server
+    (every other case kind serves one connection per server). Run under the race detector; a failing
+    scenario is a violation of <pid>."""
+    def run(tier, seed, work, sh):
+        return _c20_race_scenarios(tier, seed, work, sh, pattern="Scenario" + pid + "_")
+    return run
+
+PROPS["C01"]["extra"] = [("multi_connection_scenarios", _scenarios_of("C01"))]
+PROPS["C12"]["extra"] = [("multi_connection_scenarios", _scenarios_of("C12"))]
 
 PROPS["C13"]["kinds"] = ["lmtp", "c13x"]
 PROPS["C17"]["kinds"] = ["reply", "c17conv"]
